@@ -405,7 +405,24 @@ func runC16(c *Ctx) {
 	}
 
 	// ---------- R3 os server ----------
-	if rr := p.Func("(*sshFxpReaddirPacket).respond"); rr == nil {
+	rr := p.Func("(*sshFxpReaddirPacket).respond")
+	if rr == nil {
+		// moved to another receiver or name: the os server's READDIR code is the function of package sftp that calls
+		// Readdir on the open file (there is one)
+		var hosts []*ssa.Function
+		for _, fn := range p.LibFuncs() {
+			if fn.Pkg != p.Sftp || isClientSide(fn) {
+				continue
+			}
+			if len(callsWhere(fn, func(cc *ssa.CallCommon) bool { return cc.IsInvoke() && cc.Method.Name() == "Readdir" })) > 0 {
+				hosts = append(hosts, fn)
+			}
+		}
+		if len(hosts) == 1 {
+			rr = hosts[0]
+		}
+	}
+	if rr == nil {
 		c.missing("R3", "(*sshFxpReaddirPacket).respond")
 	} else {
 		c.looked(fnName(rr))
